@@ -119,6 +119,39 @@ DotDoc(i) ==
   IN [header |-> IF modular THEN "module" ELSE "model", schema |-> IF modular THEN "" ELSE "1.1", module |-> IF modular THEN "m" ELSE "",
       types |-> <<[name |-> "user", ext |-> FALSE, rels |-> <<>>]>> \o (IF (i \div 8) % 2 = 0 THEN <<ta, tb>> ELSE <<tb, ta>>), conds |-> <<>>]
 
+\* documents off the indexed family (job key `special`):
+\*  0, 1     conditions and no type at all (model / module file)
+\*  2, 3     a condition whose body is empty (`{` directly followed by `}`; with another condition before / after it)
+\*  4 ..     an operator over n = 1..10 leaves followed (or preceded, or both) by a parenthesised group of the other operator:
+\*           `a or b or c or d or e or (f and g)` - the width of an operator list is not bounded by the grammar
+SpecialDoc(i) ==
+  LET N == Names(0)
+      rel(n, rw, restr) == [name |-> n, rw |-> rw, restr |-> restr]
+      base(rels, conds, modular) ==
+        [header |-> IF modular THEN "module" ELSE "model", schema |-> IF modular THEN "" ELSE "1.1", module |-> IF modular THEN "m" ELSE "",
+         types |-> IF rels = <<>> THEN <<>> ELSE << [name |-> "user", ext |-> FALSE, rels |-> <<>>], [name |-> "doc", ext |-> FALSE, rels |-> rels] >>, conds |-> conds]
+      leaf(j) == IF j % 4 = 3 THEN [k |-> "ttu", rel |-> "b", ts |-> "p"] ELSE [k |-> "cu", rel |-> <<"a", "b", "p">>[(j % 4) + 1]]
+      wide(j) == LET n == (j % 10) + 1
+                     op == IF (j \div 10) % 2 = 0 THEN "union" ELSE "inter"
+                     other == IF op = "union" THEN "inter" ELSE "union"
+                     grp(g) == [k |-> IF g % 3 = 2 THEN "diff" ELSE other, ch |-> <<leaf(g), leaf(g + 1)>> \o (IF g % 3 = 1 THEN <<leaf(g + 2)>> ELSE <<>>)]
+                     where == (j \div 20) % 4           \* group last / group last after a leading direct assignment / group in the middle / two groups
+                     ls == [x \in 1..n |-> leaf(x)]
+                     ch == CASE where = 0 -> ls \o <<grp(n)>>
+                             [] where = 1 -> <<[k |-> "this"]>> \o ls \o <<grp(n)>>
+                             [] where = 2 -> ls \o <<grp(n), leaf(n + 1)>>
+                             [] OTHER -> ls \o <<grp(n), grp(n + 1)>>
+                 IN base(<< rel("p", [k |-> "this"], <<Ty("doc")>>), rel("x", [k |-> op, ch |-> ch], <<Ty("user")>>), rel("a", [k |-> "this"], <<Ty("user")>>),
+                            rel("b", [k |-> "this"], <<Ty("user")>>) >>, <<>>, (j \div 80) % 2 = 1)
+      emptyc == [name |-> "nobody", params |-> <<[name |-> "x", ty |-> "int"]>>, expr |-> ""]
+      plainrels == << rel("a", [k |-> "this"], <<Ty("user"), WithC(Ty("user"), "nobody")>>) >>
+  IN CASE i = 0 -> base(<<>>, <<Cond1(N, 1), AllTypesCond>>, FALSE)
+       [] i = 1 -> base(<<>>, <<Cond1(N, 2)>>, TRUE)
+       [] i = 2 -> base(plainrels, <<emptyc, Cond1(N, 1)>>, FALSE)
+       [] i = 3 -> base(plainrels, <<AllTypesCond, emptyc>>, TRUE)
+       [] OTHER -> wide(i - 4)
+NumSpecial == 4 + 160
+
 (***************************************************************************)
 (* C09: the catalogue of structural violations, D -> D' at a site          *)
 (***************************************************************************)
@@ -158,8 +191,11 @@ Violate(D, v, site, N) ==
                 at == ((site \div (nrels * 5)) % (nrels + 1 - ri)) + ri + 1
             IN [viol |-> "duplicate relation", tag |-> <<"rel", 2, at>>, doc |-> [D EXCEPT !.types[2].rels = InsertAt(@, at, copy)]]
        [] v = 6 ->     \* a condition defined twice
-            LET c == Cond1(N, 1) IN
-            [viol |-> "duplicate condition", tag |-> <<"cond", Len(D.conds) + 2>>, doc |-> [D EXCEPT !.conds = @ \o <<c, [c EXCEPT !.expr = "flag"]>>]]
+            \* (an empty body is a body: the earlier or the later declaration, or both, may have one)
+            LET c == Cond1(N, 1)
+                e1 == CASE site % 4 = 1 -> "" [] site % 4 = 3 -> "" [] OTHER -> c.expr
+                e2 == CASE site % 4 = 2 -> "" [] site % 4 = 3 -> "" [] OTHER -> "flag"
+            IN [viol |-> "duplicate condition", tag |-> <<"cond", Len(D.conds) + 2>>, doc |-> [D EXCEPT !.conds = @ \o <<[c EXCEPT !.expr = e1], [c EXCEPT !.expr = e2]>>]]
        [] v = 7 ->     \* a condition parameter defined twice
             LET c == Cond1(N, 1)
                 dup == [name |-> c.params[(site % 3) + 1].name, ty |-> IF (site \div 3) % 2 = 0 THEN "string" ELSE "map<string>"]
@@ -240,7 +276,7 @@ Load == job = <<>> /\ job' = JobAt(ji) /\ UNCHANGED ji
 \* two steps: the rendering is kept in the state so that it is evaluated once (TLC re-evaluates LET definitions at every
 \* reference from inside a constructor), then printed
 Layout == /\ job # <<>> /\ "R" \notin DOMAIN job
-          /\ LET D0 == IF "kw" \in DOMAIN job THEN KwDoc(job.kw[1], job.kw[2]) ELSE IF "wide" \in DOMAIN job THEN WideDoc ELSE IF "dot" \in DOMAIN job THEN DotDoc(job.dot) ELSE DocAt(job.doc)
+          /\ LET D0 == IF "special" \in DOMAIN job THEN SpecialDoc(job.special) ELSE IF "kw" \in DOMAIN job THEN KwDoc(job.kw[1], job.kw[2]) ELSE IF "wide" \in DOMAIN job THEN WideDoc ELSE IF "dot" \in DOMAIN job THEN DotDoc(job.dot) ELSE DocAt(job.doc)
                  N == Names(job.doc % 3)
                  V == IF job.viol = 0 THEN [viol |-> "", tag |-> <<>>, doc |-> D0] ELSE Violate(D0, job.viol, job.vsite, N)
                  ts == IF "mut" \in DOMAIN job THEN MutateAll(Tokens(V.doc), job.mut, 1) ELSE Tokens(V.doc)
